@@ -75,6 +75,7 @@ func main() {
 	n := flag.Int("n", 500, "number of runs")
 	pigeon := flag.String("pigeon", "/verif/build/bin/pigeon-verif", "pigeon binary built with -tags verif")
 	includeKnown := flag.Bool("include-known", false, "lift the known-defect avoidance")
+	lift := flag.String("lift", "", "lift single avoidances: comma-separated list of "+strings.Join(pvpeg.AvoidNames(), ","))
 	out := flag.String("out", "/tmp/pvt.pvtool.out", "directory for failing inputs")
 	jobs := flag.Int("j", 16, "parallel runs")
 	timeout := flag.Duration("timeout", 10*time.Second, "per-run timeout")
@@ -83,9 +84,10 @@ func main() {
 		fmt.Fprintln(os.Stderr, "usage: pvtool [-seed S] [-n N] [-pigeon BIN] [-include-known] [-out DIR] [-j J] [-timeout D]")
 		os.Exit(2)
 	}
-	av := pvpeg.Avoid{}
-	if *includeKnown {
-		av = pvpeg.IncludeKnown()
+	av, err := pvpeg.ParseAvoid(*includeKnown, *lift)
+	if err != nil {
+		fmt.Fprintln(os.Stderr, "pvtool:", err)
+		os.Exit(2)
 	}
 	scratch, err := os.MkdirTemp("/tmp", "pvt.tool.")
 	if err != nil {
@@ -113,7 +115,7 @@ func main() {
 			dir := filepath.Join(scratch, fmt.Sprint("w", w))
 			os.MkdirAll(dir, 0o755)
 			for i := range next {
-				items[i] = evaluate(srv, *pigeon, dir, *seed, i, av, *includeKnown, *timeout)
+				items[i] = evaluate(srv, *pigeon, dir, *seed, i, av, *timeout)
 			}
 		}(w)
 	}
@@ -213,7 +215,7 @@ func analyse(a pvpeg.Answer) facts {
 	return f
 }
 
-func evaluate(srv *pvpeg.Server, pigeon, dir string, seed int64, i int, av pvpeg.Avoid, includeKnown bool, timeout time.Duration) *item {
+func evaluate(srv *pvpeg.Server, pigeon, dir string, seed int64, i int, av pvpeg.Avoid, timeout time.Duration) *item {
 	r := pvpeg.SubRand(seed, 0, i)
 	it := &item{}
 	valid := func(compilable bool) string {
@@ -267,10 +269,10 @@ func evaluate(srv *pvpeg.Server, pigeon, dir string, seed int64, i int, av pvpeg
 	}
 	for _, fl := range []string{"-cache", "-no-recover", "-nolint", "-optimize-basic-latin", "-optimize-grammar", "-optimize-parser", "-support-left-recursion", "-x"} {
 		if r.Intn(4) == 0 {
-			if fl == "-optimize-grammar" && !includeKnown && (f.throws || f.undefined || strings.Contains(it.text, "%{") || strings.Contains(it.text, "//{")) {
+			if fl == "-optimize-grammar" && !av.OptThrow && (f.throws || f.undefined || strings.Contains(it.text, "%{") || strings.Contains(it.text, "//{")) {
 				continue // D13
 			}
-			if fl == "-no-recover" && !includeKnown && ans.Kind == "err" && recoveredPanic(ans.Msg) {
+			if fl == "-no-recover" && !av.NoRecoverPanic && ans.Kind == "err" && recoveredPanic(ans.Msg) {
 				continue // F4: an action of the front-end grammar panics on this text
 			}
 			add(fl)
